@@ -78,6 +78,8 @@ MUTANTS = [
      r"m => call\.reply_method_not_found\(String::from\(m\)\),", "m => call.reply_method_not_implemented(String::from(m)),", {"C03"}),
     ("generated-dispatch-swallows-missing-parameters", "varlink_stdinterfaces/src/org_varlink_service.rs",
      r'call\.reply_invalid_parameter\("parameters"\.into\(\)\)', "Ok(())", None),
+    ("socket-file-not-unlinked", "varlink/src/server.rs", r"let _ = fs::remove_file\(path\);", "let _ = path;", {"C15"}),
+    ("activated-flag-flipped-in-drop", "varlink/src/server.rs", r"Listener::UNIX\(Some\(ref listener\), false\) => \{", "Listener::UNIX(Some(ref listener), true) => {", {"C15"}),
     ("listen-drops-upgrade-tail", "varlink/src/server.rs",
      r"unread = if i\.is_some\(\) \{ rest \} else \{ Vec::new\(\) \};", "let _ = rest;", {"C02", "C01"}),
 ]
